@@ -8,6 +8,8 @@ ops (t = thread id):
   fin <t>      rest of t's send: EncryptDanger(c) / Store(Reject) -> `sealed <nonce>` | `refused` | `pinned` | `skip`
   hotsend <t>  the real sendInsideEncrypt as one step             -> `sealed <nonce>` | `refused` | `skip`
   load                                                           -> `<counter>`
+  callsites    AST scan of the repository: every call of EncryptDanger / NextMessageCounter / a mutating
+               method of a `messageCounter` field, as sorted `<function>:<callee>` list
   lockrace <t> <rounds>  3·rounds real sendInsideEncrypt calls by contending goroutines (two senders,
                one held inside EncryptDanger while the other starts)  -> `ok sealed=<k> ctr=<counter>` | `skip`
                | `disorder <n> reached the cipher after <m>` (lock mode only; never produced by the model)
@@ -62,8 +64,27 @@ def phase (s : S) : String :=
   else if s.m.ctr.toNat + 8 ≥ reject.toNat then ":near-ceiling"
   else ""
 
+/-- every place in the repository that reserves a message counter or hands one to the cipher; the model
+(`add` / `fin` steps; `ctl` = through NextMessageCounter) and the structural facts cover exactly these.
+`newConnectionStateFromResult` seeds the counter with the handshake's message index before the tunnel
+is shared (the start value `ctr0` of the model). -/
+def knownCallSites : String :=
+  ",".intercalate [
+    "ConnectionState.NextMessageCounter:messageCounter.Add",
+    "ConnectionState.NextMessageCounter:messageCounter.Store",
+    "Interface.prepareSendVia:EncryptDanger",
+    "Interface.prepareSendVia:NextMessageCounter",
+    "Interface.sendInsideEncrypt:EncryptDanger",
+    "Interface.sendInsideEncrypt:messageCounter.Add",
+    "Interface.sendNoMetrics:EncryptDanger",
+    "Interface.sendNoMetrics:NextMessageCounter",
+    "newConnectionStateFromResult:messageCounter.Add"]
+
 def step (s : S) (args : List String) (impl : String) : S × Out :=
   match args with
+  | ["callsites"] =>
+    (s, { model := knownCallSites, verdict := expect "unlisted-counter-callsite" impl knownCallSites,
+          tag := "callsites" })
   | ["reset", c0, lock, _cipher] =>
     match natArg c0 with
     | some c0 =>
